@@ -23,6 +23,90 @@ Proof. induction l as [|a l IH]; intros k i.
   - rewrite skipn_nil. destruct i, k; reflexivity.
   - destruct k as [|k]; simpl; [reflexivity|]. apply IH. Qed.
 
+(* ---------- the order on labels: total and transitive, hence sorting commutes with filtering ---------- *)
+Lemma label_leb_total : forall a b, label_leb a b = false -> label_leb b a = true.
+Proof. induction a as [|x a IH]; intros [|y b] H; simpl in *; try discriminate; try reflexivity.
+  destruct (N.ltb x y) eqn:Lxy; [discriminate|]. destruct (N.eqb x y) eqn:Exy.
+  - apply N.eqb_eq in Exy. subst y. rewrite Lxy, N.eqb_refl. apply IH, H.
+  - apply N.ltb_ge in Lxy. apply N.eqb_neq in Exy.
+    assert (Hlt : (y < x)%N) by lia. apply N.ltb_lt in Hlt. rewrite Hlt. reflexivity. Qed.
+
+Lemma label_leb_trans : forall a b c, label_leb a b = true -> label_leb b c = true -> label_leb a c = true.
+Proof. induction a as [|x a IH]; intros [|y b] [|z c] Hab Hbc; simpl in *; try discriminate; try reflexivity.
+  destruct (N.ltb x y) eqn:Lxy.
+  - apply N.ltb_lt in Lxy. destruct (N.ltb y z) eqn:Lyz.
+    + apply N.ltb_lt in Lyz. assert (Hxz : (x < z)%N) by lia. apply N.ltb_lt in Hxz. rewrite Hxz. reflexivity.
+    + destruct (N.eqb y z) eqn:Eyz; [|discriminate]. apply N.eqb_eq in Eyz. subst z.
+      apply N.ltb_lt in Lxy. rewrite Lxy. reflexivity.
+  - destruct (N.eqb x y) eqn:Exy; [|discriminate]. apply N.eqb_eq in Exy. subst y.
+    destruct (N.ltb x z) eqn:Lxz; [reflexivity|]. destruct (N.eqb x z) eqn:Exz; [|discriminate].
+    exact (IH b c Hab Hbc). Qed.
+
+(* strongly sorted: every element is below all later ones *)
+Fixpoint lsorted (l : list label) : Prop :=
+  match l with [] => True | x :: r => (forall z, In z r -> label_leb x z = true) /\ lsorted r end.
+
+Lemma linsert_In x z l : In z (linsert x l) -> z = x \/ In z l.
+Proof. induction l as [|y r IH]; simpl.
+  - intros [H|[]]; left; symmetry; exact H.
+  - destruct (label_leb x y); simpl.
+    + intros [H|H]; [left; symmetry; exact H|right; exact H].
+    + intros [H|H]; [right; left; exact H|]. destruct (IH H) as [H1|H1]; [left; exact H1|right; right; exact H1]. Qed.
+
+Lemma linsert_sorted x l : lsorted l -> lsorted (linsert x l).
+Proof. induction l as [|y r IH]; simpl.
+  - intros _. split; [intros z []|exact I].
+  - intros [Hy Hr]. destruct (label_leb x y) eqn:Lxy; simpl.
+    + split; [|split; assumption]. intros z [Hz|Hz]; [subst z; exact Lxy|].
+      apply (label_leb_trans x y z Lxy). apply Hy, Hz.
+    + split; [|apply IH, Hr]. intros z Hz. destruct (linsert_In x z r Hz) as [Hz1|Hz1].
+      * subst z. apply label_leb_total, Lxy.
+      * apply Hy, Hz1. Qed.
+
+Lemma lsort_sorted l : lsorted (lsort l).
+Proof. induction l as [|x r IH]; simpl; [exact I|]. apply linsert_sorted, IH. Qed.
+
+Lemma linsert_below x l : (forall z, In z l -> label_leb x z = true) -> linsert x l = x :: l.
+Proof. destruct l as [|y r]; simpl; [reflexivity|]. intros H. rewrite (H y (or_introl eq_refl)). reflexivity. Qed.
+
+Lemma filter_linsert_out (p : label -> bool) x l : p x = false -> filter p (linsert x l) = filter p l.
+Proof. intros Hx. induction l as [|y r IH]; simpl; [rewrite Hx; reflexivity|].
+  destruct (label_leb x y); simpl; [rewrite Hx; reflexivity|]. rewrite IH. reflexivity. Qed.
+
+Lemma filter_linsert_in (p : label -> bool) x l : p x = true -> lsorted l ->
+  filter p (linsert x l) = linsert x (filter p l).
+Proof. intros Hx. induction l as [|y r IH]; simpl; [rewrite Hx; reflexivity|].
+  intros [Hy Hr]. destruct (label_leb x y) eqn:Lxy; simpl.
+  - rewrite Hx. destruct (p y) eqn:Py; simpl.
+    + rewrite Lxy. reflexivity.
+    + symmetry. apply linsert_below. intros z Hz. apply filter_In in Hz. destruct Hz as [Hz _].
+      apply (label_leb_trans x y z Lxy). apply Hy, Hz.
+  - destruct (p y) eqn:Py; simpl.
+    + rewrite Lxy, (IH Hr). reflexivity.
+    + apply IH, Hr. Qed.
+
+(* sorted([x for x in l if p(x)]) = [x for x in sorted(l) if p(x)] *)
+Lemma lsort_filter (p : label -> bool) l : lsort (filter p l) = filter p (lsort l).
+Proof. induction l as [|x r IH]; simpl; [reflexivity|]. destruct (p x) eqn:Px; simpl.
+  - rewrite IH. symmetry. apply filter_linsert_in; [exact Px|apply lsort_sorted].
+  - rewrite IH. symmetry. apply filter_linsert_out, Px. Qed.
+
+Lemma combine_map_self {A B} (f : A -> B) (l : list A) : combine (map f l) l = map (fun x => (f x, x)) l.
+Proof. induction l as [|a l IH]; simpl; [reflexivity|]. rewrite IH. reflexivity. Qed.
+
+Lemma find_ext {A} (p q : A -> bool) (l : list A) : (forall a, p a = q a) -> find p l = find q l.
+Proof. intros H. induction l as [|a l IH]; simpl; [reflexivity|]. rewrite H, IH. reflexivity. Qed.
+
+Lemma while_fuel_ext {S X} (c c' : S -> option X) (b b' : S -> X -> S) :
+  (forall s, c s = c' s) -> (forall s x, b s x = b' s x) ->
+  forall fuel s, while_fuel fuel c b s = while_fuel fuel c' b' s.
+Proof. intros Hc Hb. induction fuel as [|f IH]; intros s; simpl; [reflexivity|].
+  rewrite Hc. destruct (c' s) as [x|]; [|reflexivity]. rewrite Hb. apply IH. Qed.
+
+(* the module-private helpers (def _name) of the source are definitions of their own in Gen/NetworkGen.v, registered in the
+   hint database py_private by the translator: the proofs about their callers look through them, whatever their names *)
+Ltac unfold_private := try autounfold with py_private.
+
 Section GenThm.
 Variable K : fops.
 Notation "0" := (f0 K). Notation "1" := (f1 K).
@@ -120,11 +204,16 @@ Proof. induction bs as [|b bs IH]; simpl; [reflexivity|]. rewrite IH, Branch_id_
 Lemma getitem_eq (n : network K) id :
   py_network.Network___getitem__ K n id
   = match get_branch (branches n) id with Some b => Ok b | None => Err EKeyError end.
-Proof. unfold py_network.Network___getitem__, dict_item. rewrite dict_get_eq. reflexivity. Qed.
+Proof. unfold py_network.Network___getitem__, dict_item.
+  (* {b.id: b for b in branches}  or  dict(zip(branch_ids, branches)) *)
+  try (unfold py_network.Network_branch_ids; rewrite combine_map_self; cbv beta).
+  rewrite dict_get_eq. reflexivity. Qed.
 
 (* ====================== label_mapping.py ====================== *)
 Lemma alphabetic_node_mapper_eq (n : network K) : py_label_mapping.alphabetic_node_mapper K n = node_index n.
-Proof. unfold py_label_mapping.alphabetic_node_mapper, node_index, enum_mapping. rewrite node_labels_eq. reflexivity. Qed.
+Proof. unfold py_label_mapping.alphabetic_node_mapper, node_index. unfold_private. unfold enum_mapping. cbv zeta.
+  (* the reference node is removed after or before sorting *)
+  rewrite node_labels_eq, ?lsort_filter. reflexivity. Qed.
 
 Lemma filter_map_ids (p q : elem K -> bool) (bs : list (branch K)) : (forall e, p e = q e) ->
   map (fun b => py_network.Branch_id K b) (filter (fun b => p (el b)) bs) = map bid (filter (fun b => q (el b)) bs).
@@ -133,16 +222,16 @@ Proof. intros H. induction bs as [|b bs IH]; simpl; [reflexivity|]. rewrite H. d
 
 Lemma alphabetic_current_source_mapper_eq (n : network K) :
   py_label_mapping.alphabetic_current_source_mapper K n = cs_index n.
-Proof. unfold py_label_mapping.alphabetic_current_source_mapper, cs_index, enum_mapping.
+Proof. unfold py_label_mapping.alphabetic_current_source_mapper, cs_index. unfold_private. unfold enum_mapping. cbv zeta.
   rewrite (filter_map_ids _ _ _ is_current_source_eq). reflexivity. Qed.
 
 Lemma alphabetic_voltage_source_mapper_eq (n : network K) :
   py_label_mapping.alphabetic_voltage_source_mapper K n = vs_index n.
-Proof. unfold py_label_mapping.alphabetic_voltage_source_mapper, vs_index, enum_mapping.
+Proof. unfold py_label_mapping.alphabetic_voltage_source_mapper, vs_index. unfold_private. unfold enum_mapping. cbv zeta.
   rewrite (filter_map_ids _ _ _ is_ideal_voltage_source_eq). reflexivity. Qed.
 
 Lemma alphabetic_source_mapper_eq (n : network K) : py_label_mapping.alphabetic_source_mapper K n = source_index n.
-Proof. unfold py_label_mapping.alphabetic_source_mapper, source_index, enum_mapping.
+Proof. unfold py_label_mapping.alphabetic_source_mapper, source_index. unfold_private. unfold enum_mapping. cbv zeta.
   rewrite (filter_map_ids _ _ _ is_current_source_eq), (filter_map_ids _ _ _ is_ideal_voltage_source_eq). reflexivity. Qed.
 
 Lemma default_mappers_eq (n : network K) :
@@ -213,42 +302,55 @@ Proof. unfold py_transformers.remove_open_circuit_elements, remove_open_circuit_
 
 Lemma short_circuitify_voltage_sources_eq (n : network K) keep :
   py_transformers.short_circuitify_voltage_sources K n keep = short_circuitify_voltage_sources n keep.
-Proof. unfold py_transformers.short_circuitify_voltage_sources, short_circuitify_voltage_sources. rewrite Network_new_eq.
-  f_equal; apply map_ext; intros b; rewrite ?is_voltage_source_eq; unfold zero_in_voltage;
+Proof. unfold py_transformers.short_circuitify_voltage_sources, short_circuitify_voltage_sources. unfold_private. cbv zeta.
+  rewrite Network_new_eq.
+  f_equal; apply map_ext; intros b; cbv beta; rewrite ?is_voltage_source_eq; unfold zero_in_voltage;
   rewrite ?get_name_eq, ?get_Z_eq, ?impedance_eq;
   destruct (in_keep (el b) keep), (is_voltage_source (el b)); reflexivity. Qed.
 
 Lemma open_circuitify_current_sources_eq (n : network K) keep :
   py_transformers.open_circuitify_current_sources K n keep = open_circuitify_current_sources n keep.
-Proof. unfold py_transformers.open_circuitify_current_sources, open_circuitify_current_sources. rewrite Network_new_eq.
-  f_equal; apply map_ext; intros b; rewrite ?is_current_source_eq; unfold zero_in_current;
+Proof. unfold py_transformers.open_circuitify_current_sources, open_circuitify_current_sources. unfold_private. cbv zeta.
+  rewrite Network_new_eq.
+  f_equal; apply map_ext; intros b; cbv beta; rewrite ?is_current_source_eq; unfold zero_in_current;
   rewrite ?get_name_eq, ?get_Y_eq, ?admittance_eq;
   destruct (in_keep (el b) keep), (is_current_source (el b)); reflexivity. Qed.
 
-(* the while loop of remove_short_circuit_elements *)
-Lemma find_target_eq keep (bs : list (branch K)) :
-  find (fun b => py_elements.is_short_circuit K (el b) && negb (in_keep (el b) keep)) bs = find (is_target keep) bs.
-Proof. induction bs as [|b bs IH]; simpl; [reflexivity|]. unfold is_target at 1. rewrite is_short_circuit_eq, IH. reflexivity. Qed.
-
-Lemma rsc_while_eq (n : network K) keep fuel : forall bs,
-  while_fuel fuel
-    (fun bs' => find (fun b => py_elements.is_short_circuit K (el b) && negb (in_keep (el b) keep)) bs')
-    (fun bs' sc =>
-       let '(an, rn) := if negb (py_network.Network_is_zero_node K n (node1 sc)) then (node1 sc, node2 sc)
-                        else (node2 sc, node1 sc) in
-       let bs1 := map (fun b => if label_eqb (node1 b) an then Build_branch rn (node2 b) (el b) else b) bs' in
-       let bs2 := map (fun b => if label_eqb (node2 b) an then Build_branch (node1 b) rn (el b) else b) bs1 in
-       let bs3 := filter (fun b => negb (label_eqb (node1 b) (node2 b))) bs2 in bs3) bs
-  = rsc_loop fuel (zero n) keep bs.
+(* the while loop of remove_short_circuit_elements: the model's loop is the same [while_fuel] iteration; condition and
+   body are compared pointwise, so the proof does not depend on how the source spells them *)
+Lemma rsc_loop_while z keep fuel : forall bs : list (branch K),
+  rsc_loop fuel z keep bs
+  = while_fuel fuel (find (is_target keep)) (fun bs' sc => contract (fst (sc_pair z sc)) (snd (sc_pair z sc)) bs') bs.
 Proof. induction fuel as [|f IH]; intros bs; simpl; [reflexivity|].
-  rewrite find_target_eq. destruct (find (is_target keep) bs) as [sc|]; [|reflexivity].
-  rewrite <- IH. f_equal. unfold sc_pair, py_network.Network_is_zero_node, contract.
-  destruct (negb (label_eqb (node1 sc) (zero n))); reflexivity. Qed.
+  destruct (find (is_target keep) bs) as [sc|]; [|reflexivity]. apply IH. Qed.
+
+(* one contraction step written as a single pass (relabel both end points, drop the branch when it became a loop, rebuild it
+   only when an end point changed) is the model's three passes *)
+Lemma merge_nodes_eq an rn (bs : list (branch K)) :
+  flat_map (fun b => let n1 := if label_eqb (node1 b) an then rn else node1 b in
+                     let n2 := if label_eqb (node2 b) an then rn else node2 b in
+                     if label_eqb n1 n2 then []
+                     else if label_eqb (node1 b) an || label_eqb (node2 b) an then [Build_branch n1 n2 (el b)] else [b]) bs
+  = contract an rn bs.
+Proof. unfold contract. induction bs as [|b bs IH]; [reflexivity|]. destruct b as [p q e].
+  cbn [flat_map map filter node1 node2 el]. rewrite IH. clear IH.
+  destruct (label_eqb p an) eqn:E1; destruct (label_eqb q an) eqn:E2; cbn [node1 node2 el orb]; rewrite ?E1, ?E2;
+    cbn [node1 node2 el]; rewrite ?label_eqb_refl; cbn [negb app].
+  - reflexivity.
+  - destruct (label_eqb rn q); reflexivity.
+  - destruct (label_eqb p rn); reflexivity.
+  - destruct (label_eqb p q); reflexivity. Qed.
 
 Lemma remove_short_circuit_elements_eq (n : network K) keep :
   py_transformers.remove_short_circuit_elements K n keep = remove_short_circuit_elements n keep.
-Proof. unfold py_transformers.remove_short_circuit_elements, remove_short_circuit_elements, while_list.
-  rewrite Network_new_eq. f_equal; apply rsc_while_eq. Qed.
+Proof. unfold py_transformers.remove_short_circuit_elements, remove_short_circuit_elements, while_list. unfold_private. cbv zeta.
+  rewrite Network_new_eq. f_equal. rewrite rsc_loop_while. apply while_fuel_ext.
+  - intros bs. cbv beta. apply find_ext. intros b. unfold is_target. rewrite is_short_circuit_eq. reflexivity.
+  - intros bs sc. unfold sc_pair, py_network.Network_is_zero_node.
+    destruct (negb (label_eqb (node1 sc) (zero n))); cbn [fst snd]; cbv beta iota zeta;
+      (* three comprehensions, as in the model, or one fused loop *)
+      first [ reflexivity
+            | match goal with |- _ = contract ?a ?r ?l => exact (merge_nodes_eq a r l) end ]. Qed.
 
 Lemma remove_ideal_current_sources_eq (n : network K) keep :
   py_transformers.remove_ideal_current_sources K n keep = remove_ideal_current_sources n keep.
